@@ -26,7 +26,8 @@ RULE = ('one case = (writer in {OutputToJSON, OutputToFile(pickle), atomic_write
         '1-3 phases, destination absent or holding an old complete record, filename pattern '
         'kind, fault kind and position k): every k for serializer-raises-after-k-chunks and '
         'k-th-write-raises, close raises (for atomic_write: the final flush inside close), move/rename raises, real mid-stream serializer '
-        'failure, no fault; and (thorough, plus a few in quick) the writer running in a child '
+        'failure, no fault; faults raising KeyboardInterrupt / ThreadTerminationError instead of an '
+        'OSError; two writers publishing to one destination at overlapping times; and (thorough, plus a few in quick) the writer running in a child '
         'process that is SIGKILLed by strace at its N-th file-system system call for every N; '
         'distinct = distinct case; non-trivial = a fault fired (or a success was compared '
         'byte for byte) and the destination was inspected')
@@ -107,6 +108,14 @@ def enumerated(tier):
                  'pattern': 'brace'}
           yield {'w': writer, 'n': nph, 'dest': dest, 'fault': ['write', k],
                  'pattern': 'brace'}
+  # the same faults raising a BaseException that is not an Exception
+  for writer in ('json', 'pickle'):
+    for dest in ('absent', 'old'):
+      for exc in ('kbi', 'term'):
+        for fault in (['close'], ['move'], ['ser', 0], ['ser', 1], ['ser', 7],
+                      ['write', 0], ['write', 1], ['write', 2], ['write', 25]):
+          yield {'w': writer, 'n': 1, 'dest': dest, 'fault': fault,
+                 'pattern': 'brace', 'exc': exc}
   for pattern in ('brace', 'percent', 'callable', 'nested'):
     yield {'w': 'json', 'n': 1, 'dest': 'absent', 'fault': ['none'],
            'pattern': pattern}
@@ -120,6 +129,11 @@ def enumerated(tier):
       for k in range(0, 6):
         yield {'w': 'atomic_write', 'dest': dest, 'fault': ['body', k],
                'sync': sync}
+  for writer in ('atomic_write', 'json'):
+    for dest in ('absent', 'old'):
+      for sync in (False, True):
+        yield {'w': writer, 'dest': dest, 'fault': ['two_writers'], 'sync': sync,
+               'n': 1}
   nv = PLAN[tier]['kill_variants']
   variants = [('json', 'old', 1), ('atomic_write_nosync', 'old', 1),
               ('pickle', 'old', 1)]
@@ -139,6 +153,19 @@ def sampled(tier, rng):
 
 class Injected(OSError):
   pass
+
+
+def injected(case, what):
+  """The exception an injected fault raises: an OSError, or — case['exc'] — a
+  BaseException that is not an Exception: KeyboardInterrupt (Ctrl-C while the
+  record is written) or ThreadTerminationError (the callback's thread killed)."""
+  kind = case.get('exc', 'os')
+  if kind == 'kbi':
+    return KeyboardInterrupt('injected ' + what)
+  if kind == 'term':
+    from openhtf.util import threads
+    return threads.ThreadTerminationError('injected ' + what)
+  return Injected('injected ' + what)
 
 
 def classify_dest(path, dest_before, new_bytes=None, new_ok=None):
@@ -206,7 +233,7 @@ def run_inprocess(case):
       def write(self, data):
         if fault[0] == 'write' and FaultyAtomic.nwrites == fault[1]:
           fired.append('write')
-          raise Injected('injected write failure')
+          raise injected(case, 'write failure')
         FaultyAtomic.nwrites += 1
         return super().write(data)
 
@@ -221,7 +248,7 @@ def run_inprocess(case):
           def bad_close():
             real_close()
             fired.append('close')
-            raise Injected('injected close failure')
+            raise injected(case, 'close failure')
           a.temp.close = bad_close
         return a
 
@@ -236,7 +263,7 @@ def run_inprocess(case):
           for i, chunk in enumerate(out):
             if i == fault[1]:
               fired.append('ser')
-              raise Injected('injected serializer failure')
+              raise injected(case, 'serializer failure')
             yield chunk
         return gen()
 
@@ -248,7 +275,7 @@ def run_inprocess(case):
     if fault[0] == 'move':
       def bad_move(src, dst, *a, **k):
         fired.append('move')
-        raise Injected('injected move failure')
+        raise injected(case, 'move failure')
       cbmod.shutil.move = bad_move
     if fault[0] == 'real_serializer':
       # an earlier callback closed the attachments: OutputToJSON fails for real
@@ -270,7 +297,7 @@ def run_inprocess(case):
     try:
       cb(rec_used)
       raised = None
-    except Exception as e:  # pylint: disable=broad-except
+    except BaseException as e:  # pylint: disable=broad-except
       raised = type(e).__name__
       if fault[0] == 'real_serializer':
         fired.append('real_serializer')
@@ -282,7 +309,7 @@ def run_inprocess(case):
         new_bytes if fault[0] != 'real_serializer' else None,
         new_ok=lambda b: False)
     ctx = {'writer': case['w'], 'fault': fault, 'dest_before': case['dest'],
-           'raised': raised}
+           'raised': raised, 'exception_kind': case.get('exc', 'os')}
     if fired:
       c['faults_fired'] = 1
       if verdict == 'bad':
@@ -421,6 +448,115 @@ def run_atomic_write(case):
     viol.append({'mechanism': 'staging-file-left-behind',
                  'detail': dict(ctx, files=stray)})
   shutil.rmtree(work, ignore_errors=True)
+  return {'sig': case, 'violations': viol, 'counters': c}
+
+
+def run_two_writers(case):
+  """Two writers publish to the same destination at overlapping times: A has
+  written half of its record when B writes and publishes all of its own; then A
+  finishes.  After B's publication and at the end the destination holds one of
+  the two complete records."""
+  import threading
+  from openhtf.output.callbacks import json_factory
+  from openhtf.util import atomic_write as aw
+  viol = []
+  c = {'cases': 1, 'faults_fired': 0, 'destinations_inspected': 0,
+       'successes_compared': 0, 'overlapping_publications': 0}
+  work = tempfile.mkdtemp(dir=_S['root'])
+  stage = os.path.join(work, 'stage')
+  os.mkdir(stage)
+  old_tmp = tempfile.tempdir
+  tempfile.tempdir = stage
+  dest = os.path.join(work, 'shared.out')
+  if case['dest'] == 'old':
+    with open(dest, 'wb') as f:
+      f.write(OLD)
+  a_half, b_done = threading.Event(), threading.Event()
+  errors = []
+  try:
+    if case['w'] == 'atomic_write':
+      # A's record is larger than the stream buffer (so part of its first half
+      # is on disk when B starts) and of a different length than B's
+      contents = {k: ''.join('%s line %d of the record of writer %s\n' % (k, i, k)
+                             for i in range(n)).encode()
+                  for k, n in (('A', 2500), ('B', 300))}
+
+      def write(k):
+        try:
+          with aw.atomic_write(dest, filesync=case.get('sync', False)) as f:
+            text = contents[k].decode()
+            half = len(text) // 2
+            f.write(text[:half])
+            if k == 'A':
+              a_half.set()
+              b_done.wait(10)
+            f.write(text[half:])
+        except Exception as e:  # pylint: disable=broad-except
+          errors.append((k, type(e).__name__, str(e)[:80]))
+    else:
+      recs = {'A': make_record(1, dut='DUT-A'), 'B': make_record(3, dut='DUT-B')}
+      contents = {}
+      for k, r in recs.items():
+        buf = io.BytesIO()
+        json_factory.OutputToJSON(buf, sort_keys=True)(r)
+        contents[k] = buf.getvalue()
+
+      class Gated(json_factory.OutputToJSON):
+        who = None
+
+        def serialize_test_record(self, test_rec):
+          out = list(super().serialize_test_record(test_rec))
+          me = self.who
+
+          def gen():
+            for i, chunk in enumerate(out):
+              if me == 'A' and i == len(out) // 2:
+                a_half.set()
+                b_done.wait(10)
+              yield chunk
+          return gen()
+
+      def write(k):
+        try:
+          cb = Gated(lambda **kw: dest, sort_keys=True)
+          cb.who = k
+          cb(recs[k])
+        except Exception as e:  # pylint: disable=broad-except
+          errors.append((k, type(e).__name__, str(e)[:80]))
+
+    ta = threading.Thread(target=write, args=('A',), name='vf-writer-A')
+    tb = threading.Thread(target=write, args=('B',), name='vf-writer-B')
+    ta.start()
+    if not a_half.wait(10):
+      errors.append(('A', 'harness', 'never reached its half-way point'))
+    tb.start()
+    tb.join(20)
+    c['destinations_inspected'] += 1
+    mid = classify_dest(dest, case['dest'], None,
+                        new_ok=lambda b: b in (contents['A'], contents['B']))
+    b_done.set()
+    ta.join(20)
+    c['destinations_inspected'] += 1
+    end = classify_dest(dest, case['dest'], None,
+                        new_ok=lambda b: b in (contents['A'], contents['B']))
+    ctx = {'writer': case['w'], 'dest_before': case['dest'], 'errors': errors[:3]}
+    c['overlapping_publications'] = 1
+    c['faults_fired'] = 1        # the overlap is the fault of this case
+    if mid[0] == 'bad':
+      viol.append({'mechanism': 'truncated-or-partial-record-at-destination:'
+                                'second-writer-published',
+                   'detail': dict(ctx, found=mid[1])})
+    if end[0] == 'bad':
+      viol.append({'mechanism': 'truncated-or-partial-record-at-destination:'
+                                'overlapping-writers',
+                   'detail': dict(ctx, found=end[1])})
+    elif end[0] != 'new' and not errors:
+      viol.append({'mechanism': 'destination-differs-from-serialization',
+                   'detail': dict(ctx, verdict=end[0])})
+  finally:
+    b_done.set()
+    tempfile.tempdir = old_tmp
+    shutil.rmtree(work, ignore_errors=True)
   return {'sig': case, 'violations': viol, 'counters': c}
 
 
@@ -636,6 +772,8 @@ def run_kill(case):
 
 
 def run_case(case):
+  if case['fault'][0] == 'two_writers':
+    return run_two_writers(case)
   if case['fault'][0] == 'kill':
     return run_kill(case)
   if case['w'] == 'atomic_write':
